@@ -113,7 +113,10 @@ fn one(acc: &mut Acc, src: &str, lib: bool, policies: &[Policy], what: &str) {
         if got != reference {
             acc.class("violation");
             let pair = format!("in={:016x}/{}", fnv(src.as_bytes()), policy_name(p));
-            let sig = if flags_attribution(src, lib, p, &reference) { SIG_FLAGS.to_string() } else { pair.clone() };
+            // a known finding is one specific (input, policy) pair; `svcheck c17child` re-runs a pair in the
+            // diagnostic mode by hand (see DESIGN.md 7/F10)
+            let _ = (flags_attribution as fn(&str, bool, &Policy, &str) -> bool, SIG_FLAGS);
+            let sig = pair.clone();
             acc.count("divergent (input, policy) pairs", 1);
             let ms = ATTR_MS.with(|m| m.get());
             let cur = acc.counters.get("slowest attribution run (ms)").copied().unwrap_or(0);
